@@ -248,15 +248,15 @@ func (a *aggregator) collision(r *runner, m, i, pass int) {
 	}
 	b.count++
 	if len(b.wit) < 3 {
-		b.wit = append(b.wit, witness{c: r.caseFor([]int{m, i}), stored: st.toJSON(), served: sv.toJSON(), pass: pass})
+		c := r.caseFor([]int{m, i})
+		c.Detail = map[string]any{
+			"observed":   fmt.Sprintf("pass %d, %s order: queries[1] was answered from the cache with the marker the terminal had given to queries[0]", pass, c.Order),
+			"differ_in":  tok,
+			"stored_for": describe(st.toJSON()),
+			"served_to":  describe(sv.toJSON()),
+		}
+		b.wit = append(b.wit, witness{c: c, stored: st.toJSON(), served: sv.toJSON(), pass: pass})
 	}
-}
-
-func tokenText(t string) string {
-	if strings.HasSuffix(t, "^hi") {
-		return strings.TrimSuffix(t, "^hi") + "-high-byte"
-	}
-	return t
 }
 
 func describe(s specJSON) string {
@@ -326,16 +326,35 @@ func (a *aggregator) finish(replayKey string) {
 			report("collision-"+comp+"-high-byte", fmt.Sprintf("query %s was answered from cache with the answer stored for %s: the cache does not separate queries whose %s differs only in the high byte (%d witnesses, all with equal low byte)", describe(w.served), describe(w.stored), comp, hi.count), w.c)
 		}
 	}
+	var nameKinds []string
+	for _, k := range keys {
+		if b := a.buckets[k]; len(b.tokens) == 1 && strings.HasPrefix(k, "name-") {
+			nameKinds = append(nameKinds, k)
+		}
+	}
 	for _, k := range keys {
 		b := a.buckets[k]
 		if len(b.tokens) != 1 || strings.HasPrefix(k, "type") || strings.HasPrefix(k, "class") {
 			continue
 		}
 		single[k] = true
+		if strings.HasPrefix(k, "name-") && len(nameKinds) >= 3 {
+			continue // reported once below
+		}
 		w := b.wit[0]
 		report("collision-"+k, fmt.Sprintf("query %s was answered from cache with the answer stored for %s: they differ only in %s (%d witnesses)", describe(w.served), describe(w.stored), k, b.count), w.c)
 	}
+	if len(nameKinds) >= 3 { // names are confused in many ways: one finding, not one per way
+		n := int64(0)
+		for _, k := range nameKinds {
+			n += a.buckets[k].count
+		}
+		w := a.buckets[nameKinds[0]].wit[0]
+		report("collision-name", fmt.Sprintf("query %s was answered from cache with the answer stored for %s: the cache does not separate different names (%d witnesses; kinds of difference seen: %s)", describe(w.served), describe(w.stored), n, strings.Join(nameKinds, ", ")), w.c)
+	}
 	explained := int64(0)
+	multi := map[string]*bucket{}
+	var morder []string
 	for _, k := range keys {
 		b := a.buckets[k]
 		if len(b.tokens) < 2 {
@@ -351,12 +370,27 @@ func (a *aggregator) finish(replayKey string) {
 			explained += b.count
 			continue
 		}
-		parts := make([]string, len(b.tokens))
-		for i, t := range b.tokens {
-			parts[i] = tokenText(t)
+		// key by the set of components (name / type / class / flag-X), not by their sub-kinds
+		var parts []string
+		for _, t := range b.tokens {
+			p := strings.TrimSuffix(t, "^hi")
+			if strings.HasPrefix(p, "name-") {
+				p = "name"
+			}
+			parts = append(parts, p)
 		}
-		w := b.wit[0]
-		report("collision-"+strings.Join(parts, "+"), fmt.Sprintf("query %s was answered from cache with the answer stored for %s: they differ in %s (%d witnesses)", describe(w.served), describe(w.stored), strings.Join(parts, " and "), b.count), w.c)
+		key := "collision-" + strings.Join(parts, "+")
+		if m := multi[key]; m != nil {
+			m.count += b.count
+			continue
+		}
+		multi[key] = &bucket{tokens: parts, count: b.count, wit: b.wit}
+		morder = append(morder, key)
+	}
+	for _, key := range morder {
+		m := multi[key]
+		w := m.wit[0]
+		report(key, fmt.Sprintf("query %s was answered from cache with the answer stored for %s: they differ in %s together; not explained by the single-component findings of this run (%d witnesses)", describe(w.served), describe(w.stored), strings.Join(m.tokens, " and "), m.count), w.c)
 	}
 	rep.Count("collisions_in_several_components_explained_by_single_component_findings", explained)
 	total := int64(0)
